@@ -1,7 +1,7 @@
 #!/usr/bin/env python3
 """Confirm and evaluate a deliberate breakage written by a sub-agent.
 
-  seeded_eval.py <prop> <n> <agent_out_dir> [--checks C01,C08] [--runs N]
+  seeded_eval.py <prop> <n> <agent_out_dir> [--checks C01,C08] [--runs N] [--name dir]
 
 1. scratch worktree of /repo HEAD: patch applies, builds, existing tests pass,
    the demonstration FAILS with the patch and PASSES without it;
@@ -27,6 +27,9 @@ def main():
             checks = args[i + 1].split(",")
         if a == "--runs":
             runs = args[i + 1]
+        if a == "--name":
+            global NAME
+            NAME = args[i + 1]
     patch = os.path.join(out, "patch%s.diff" % n)
     demo = os.path.join(out, "demo%s_test.go" % n)
     metaf = os.path.join(out, "meta%s.json" % n)
@@ -100,8 +103,10 @@ def guess_pkg(demo):
         pass
     return None
 
+NAME = None
+
 def finish(res, prop, n, patch, demo):
-    d = "/verif/seeded/%s-%s" % (prop, n)
+    d = "/verif/seeded/%s" % (NAME or "%s-%s" % (prop, n))
     os.makedirs(d, exist_ok=True)
     if os.path.exists(patch):
         shutil.copy(patch, os.path.join(d, "patch.diff"))
